@@ -29,6 +29,8 @@ ASSUMPTIONS = [
     "random points nessai's vectorisation probe draws; the property does not "
     "list it)",
     "fork start method; models use exactly rounded arithmetic",
+    "member processes run with distinct fixed PYTHONHASHSEED values (the "
+    "default for unrelated processes is a random one)",
 ]
 
 
@@ -73,7 +75,12 @@ def members(g):
         kw.update(v)
         job = {"model": g["base"]["model"], "ins": g["base"]["ins"],
                "kwargs": kw, "monitors": [],
-               "post": ["repeat"] if i == 0 else ["digest"]}
+               "post": ["repeat"] if i == 0 else ["digest"],
+               # "in different processes": every member process has its own
+               # string-hash randomisation (as unrelated interpreter
+               # processes do), fixed per member so that the run is a
+               # function of VERIF_SEED
+               "env": {"PYTHONHASHSEED": 0 if i == 0 else 101 * i + 1}}
         out.append(job)
     return out
 
@@ -105,7 +112,8 @@ def judge_group(ctx, g, reps, out):
                     out.add(Violation(
                         "parallel-setting-changes-result:%s:%s" % (
                             ",".join(sorted(v)), k),
-                        f"{k}: baseline {ref[k]} vs {v}: {d[k]}",
+                        f"{k}: baseline {ref[k]} vs member {v} (own process, "
+                        f"own PYTHONHASHSEED): {d[k]}",
                         {"group": g}))
     real_pool = any(("n_pool" in v or "pool" in v) for v in g["variants"])
     trained = any(((r.get("result") or {}).get("n_trainings") or
